@@ -43,7 +43,7 @@ def _move(rng, n, R, kind):
             R = sorted([0, n - 1] + rng.sample(range(1, n - 1), k))
     elif kind == 'blocks':
         # segments of exactly L points (block sizes of chunked implementations), remainder at the end
-        L = rng.choice([3, 4, 8, 16, 32, 64, 128, 256, 512, 1024, 2048, 4096, 8192])
+        L = rng.choice([3, 4, 8, 16, 32, 64, 128, 256, 512, 1024, 2048, 4096, 8192] if n <= 2100 else [16, 64, 256, 512, 1024, 2048, 4096, 8192])
         if n > L:
             R = list(range(0, n - 1, L - 1)) + [n - 1]
             R = sorted(set(R))
@@ -100,6 +100,8 @@ def gen_plan(rng, tier='quick', config='B', traces=None, boost=()):
         sessions.append({'curve': ci, 'api': rng.choice(APIS), 'mode': mode,
                          'cache_kind': rng.choice(['dict', 'dict', 'OrderedDict'])})
     nsteps = rng.randint(4, 60 if tier == 'quick' else 200)
+    if max(len(c_['points']) for c_ in pool) > 2100:
+        nsteps = min(nsteps, 40)      # long curves: keep a run within seconds
     cur = {}
     steps = []
     snaps = [0] * nsess
@@ -170,6 +172,8 @@ def gen_plan(rng, tier='quick', config='B', traces=None, boost=()):
             prev_kind = 'GRDP'
             continue
         kind = rng.choice(moves)
+        if kind == 'all' and n > 2100:
+            kind = 'blocks'          # every point a breakpoint costs O(n) Python-level work per evaluation (x4 with the oracles)
         R = _move(rng, n, cur[s], kind)
         cur[s] = R
         q = {'s': s, 'op': 'Q', 'R': list(R), 'rt': rng.choice(['nd', 'nd', 'list', 'slist', 'snd', 'snd', 'nd32', 'nd16', 'nd8'])}
